@@ -211,6 +211,33 @@ def _flatten_else(node):
     _flatten_else(h)
 
 
+class _SplitTuples(ast.NodeTransformer):
+  """C10: a, b = (x, y) -> a = x; b = y  when no target is read by any right-hand element (so it is not a swap)."""
+
+  def _split(self, stmts):
+    out = []
+    for st in stmts:
+      if (isinstance(st, ast.Assign) and len(st.targets) == 1 and isinstance(st.targets[0], (ast.Tuple, ast.List)) and
+          isinstance(st.value, (ast.Tuple, ast.List)) and len(st.targets[0].elts) == len(st.value.elts) and
+          all(isinstance(t, ast.Name) for t in st.targets[0].elts) and not any(isinstance(e, ast.Starred) for e in st.value.elts)):
+        tnames = {t.id for t in st.targets[0].elts}
+        reads = {x.id for e in st.value.elts for x in ast.walk(e) if isinstance(x, ast.Name)}
+        if not (tnames & reads) and len(tnames) == len(st.targets[0].elts):
+          for t, e in zip(st.targets[0].elts, st.value.elts):
+            out.append(ast.copy_location(ast.Assign(targets=[t], value=e), st))
+          continue
+      out.append(st)
+    return out
+
+  def generic_visit(self, node):
+    super().generic_visit(node)
+    for f in ('body', 'orelse', 'finalbody'):
+      v = getattr(node, f, None)
+      if isinstance(v, list) and v and isinstance(v[0], ast.stmt):
+        setattr(node, f, self._split(v))
+    return node
+
+
 def _aliases(tree: ast.Module):
   bound = {}
   for x in ast.walk(tree):
@@ -264,6 +291,8 @@ def canonicalise(tree: ast.Module, level=None, relpath: str = None) -> ast.Modul
   if level >= 3:
     tree = _aliases(tree)
     tree = _Polarity().visit(tree)
+    tree = _SplitTuples().visit(tree)
+    ast.fix_missing_locations(tree)
     _flatten_else(tree)
   for fn in [n for n in ast.walk(tree) if isinstance(n, (ast.FunctionDef, ast.AsyncFunctionDef))]:
     stores: Dict[str, int] = {}
@@ -280,6 +309,9 @@ def canonicalise(tree: ast.Module, level=None, relpath: str = None) -> ast.Modul
       elif isinstance(n, ast.ExceptHandler) and n.name:
         stores[n.name] = stores.get(n.name, 0) + 1
     _blocks(fn, stores, loads, level)
+  if level >= 3:
+    tree = _SplitTuples().visit(tree)   # tuple assignments exposed by the inlining above
+    ast.fix_missing_locations(tree)
   return tree
 
 
